@@ -114,7 +114,7 @@ func clientCtx(client *core.Client) context.Context {
 }
 
 func scenC12(r *Run) {
-	modes := []string{"benign", "hdr-srv", "benign", "hdr-cli", "benign", "len-srv", "benign", "len-cli", "benign", "http-cut", "benign", "udp-stale"}
+	modes := []string{"benign", "hdr-srv", "benign", "hdr-cli", "werr", "len-srv", "benign", "len-cli", "benign", "http-cut", "werr", "udp-stale"}
 	mode := modes[r.Index%len(modes)]
 	sub := r.Index / len(modes)
 	if v, ok := r.Opt["mode"]; ok {
@@ -125,6 +125,8 @@ func scenC12(r *Run) {
 	switch mode {
 	case "benign":
 		kinds = AllKinds
+	case "werr":
+		kinds = []string{"socket", "websocket", "socket", "websocket-fast", "socket", "http", "fasthttp"}
 	case "http-cut":
 		kinds = []string{"http", "fasthttp"}
 	case "udp-stale":
@@ -156,7 +158,7 @@ func scenC12(r *Run) {
 		}
 	}
 	switch mode {
-	case "benign":
+	case "benign", "werr":
 		c12Benign(r, sim, st, sub, maxLen)
 	case "hdr-srv", "len-srv", "udp-stale", "http-cut":
 		c12ServerSide(r, sim, st, sub)
@@ -182,6 +184,20 @@ func c12Benign(r *Run, sim *verifsim.Sim, st *c12state, sub, maxLen int) {
 	}
 	nreq := 1 + r.Plan(4)
 	per := 1 + r.Plan(3)
+	werr := st.mode == "werr"
+	if werr {
+		// one write on the first connection fails half way (as when a write deadline expires): the bytes written so
+		// far are on their way, the connection stays open. Requests may fail; nobody may ever be handed bytes that
+		// were not sent as one message.
+		client.Timeout = 5 * time.Second
+		dir := r.PlanOf("c2s", "c2s", "s2c")
+		off := []int{0, 1, 4, 8, 11, 12, 13, 16, 20, 40, 100, 150, 200, 300, 600}[r.Plan(15)]
+		fx.Net.AddFault(0, dir, off, "writeerr")
+		r.Param("case", fmt.Sprintf("write error %s after %d bytes", dir, off))
+		if nreq*per < 2 {
+			per = 2
+		}
+	}
 	bigResp := false
 	bigRespPtr = &bigResp
 	type rq struct {
@@ -200,7 +216,10 @@ func c12Benign(r *Run, sim *verifsim.Sim, st *c12state, sub, maxLen int) {
 			if n > maxLen {
 				n = maxLen - (id % 3)
 			}
-			if st.kind == "socket" && i == 0 && j == 0 && sub%6 == 0 {
+			if werr && n > 2000 {
+				n = 2000 - id%7
+			}
+			if st.kind == "socket" && i == 0 && j == 0 && sub%6 == 0 && !werr {
 				// the length field is 31 bits wide: cross the 2^16 and 2^24 byte boundaries too
 				n = []int{1<<24 - 1, 1 << 24, 1<<24 + 5, 1<<24 + 1<<23 + 123}[(sub/6)%4]
 				bigResp = true
@@ -240,11 +259,14 @@ func c12Benign(r *Run, sim *verifsim.Sim, st *c12state, sub, maxLen int) {
 	used := map[int]bool{}
 	for _, q := range all {
 		if !q.done {
-			r.Fail("C12:request-never-completes:benign:"+st.kind, "request %d (%d bytes) did not complete on a benign network (status %v); parked %v", q.id, len(q.req), status, sim.ParkedNames())
+			r.Fail("C12:request-never-completes:"+st.mode+":"+st.kind, "request %d (%d bytes) did not complete on a benign network (status %v); parked %v", q.id, len(q.req), status, sim.ParkedNames())
 			return
 		}
+		if q.err != nil && werr {
+			continue
+		}
 		if q.err != nil {
-			r.Fail("C12:request-failed:benign:"+st.kind, "request %d (%d bytes) failed on a benign network: %v", q.id, len(q.req), q.err)
+			r.Fail("C12:request-failed:"+st.mode+":"+st.kind, "request %d (%d bytes) failed on a benign network: %v", q.id, len(q.req), q.err)
 			return
 		}
 		found := false
@@ -256,9 +278,38 @@ func c12Benign(r *Run, sim *verifsim.Sim, st *c12state, sub, maxLen int) {
 			}
 		}
 		if !found {
-			r.Fail("C12:caller-got-"+st.explain(st.sentS2C, q.resp)+":benign:"+st.kind, "request %d was answered with %s, which is not a response the service produced (or one already returned to another caller)", q.id, describeBytes(q.resp))
+			r.Fail("C12:caller-got-"+st.explain(st.sentS2C, q.resp)+":"+st.mode+":"+st.kind, "request %d was answered with %s, which is not a response the service produced (or one already returned to another caller)", q.id, describeBytes(q.resp))
 			return
 		}
+	}
+	if werr {
+		// (how often the handler ran is not checked here: the fasthttp client re-sends a request whose response
+		// never started, so a complete message may legitimately arrive twice)
+		// afterwards a healthy request goes through
+		fx.Net.Disarm()
+		fx.Heal()
+		sim.Drive(func() bool { return false })
+		fin := false
+		req := payload(999000+sub, 64)
+		st.sentC2S = append(st.sentC2S, req)
+		var resp []byte
+		var err error
+		sim.Task("zsentinel", func() {
+			resp, err = client.Request(clientCtx(client), append([]byte(nil), req...))
+			fin = true
+		})
+		sim.Drive(func() bool { return fin })
+		if sim.Failure() != nil || !st.checkHandler() {
+			return
+		}
+		if !fin || err != nil {
+			r.Fail("C12:sentinel-failed-after:werr:"+st.kind, "after a failed write a healthy request on the same client failed: %v (completed %v)", err, fin)
+			return
+		}
+		if !st.in(st.sentS2C, resp) {
+			r.Fail("C12:caller-got-"+st.explain(st.sentS2C, resp)+":werr:"+st.kind, "the sentinel got %s", describeBytes(resp))
+		}
+		return
 	}
 	if len(st.handlerSaw) != len(all) {
 		r.Fail("C12:handler-count:benign:"+st.kind, "%d requests sent, the IO handler ran %d times", len(all), len(st.handlerSaw))
@@ -280,6 +331,10 @@ func rawStream(fx *Fixture) net.Conn {
 func c12ServerSide(r *Run, sim *verifsim.Sim, st *c12state, sub int) {
 	service := core.NewService()
 	service.Use(st.echoHandler)
+	overLimit := st.mode == "http-cut" && (sub/12)%2 == 1
+	if overLimit {
+		service.MaxRequestLength = 300
+	}
 	fx := NewFixture(r, st.kind, service)
 	client := fx.NewClient()
 	client.Timeout = 5 * time.Second
@@ -336,6 +391,29 @@ func c12ServerSide(r *Run, sim *verifsim.Sim, st *c12state, sub int) {
 		frames = [][]byte{f}
 		desc = fmt.Sprintf("udp datagram declares %d bytes, carries 100, after a 3000-byte datagram of another client", decl)
 	case "http-cut":
+		if overLimit {
+			// a chunked body (no declared length) larger than the service accepts: the service may refuse it or,
+			// as far as this property goes, take all of it - but never a truncated part of it
+			total := []int{301, 302, 600, 5000}[sub%4]
+			full := payload(7300+sub, total)
+			st.sentC2S = append(st.sentC2S, full)
+			chunk := []int{total, 100, 7}[(sub/4)%3]
+			var b bytes.Buffer
+			fmt.Fprintf(&b, "POST / HTTP/1.1\r\nHost: %s\r\nTransfer-Encoding: chunked\r\nContent-Type: application/octet-stream\r\n\r\n", fx.Addr)
+			for off := 0; off < total; off += chunk {
+				end := off + chunk
+				if end > total {
+					end = total
+				}
+				fmt.Fprintf(&b, "%x\r\n", end-off)
+				b.Write(full[off:end])
+				b.WriteString("\r\n")
+			}
+			b.WriteString("0\r\n\r\n")
+			frames = [][]byte{b.Bytes()}
+			desc = fmt.Sprintf("HTTP POST with a chunked body of %d bytes (chunks of %d) to a service that accepts 300", total, chunk)
+			break
+		}
 		total := []int{100, 1000, 5000}[sub%3]
 		have := []int{0, 1, total / 2, total - 1}[(sub/3)%4]
 		full := payload(7200+sub, total)
@@ -408,7 +486,7 @@ func c12ServerSide(r *Run, sim *verifsim.Sim, st *c12state, sub int) {
 			return
 		}
 	}
-	if len(st.handlerSaw) != 2 {
+	if len(st.handlerSaw) != 2 && !(overLimit && len(st.handlerSaw) == 3) {
 		r.Fail("C12:handler-count:"+mode+":"+kind, "2 consistent requests were sent (plus: %s); the IO handler ran %d times", desc, len(st.handlerSaw))
 	}
 }
